@@ -38,6 +38,22 @@ CLAIMED = {
          "lockset_race_free: in every well-formed trace whose threads follow a disciplined access table no two conflicting accesses race (mutex rel->acq and close->receive edges); C20_instance: the table extracted from /repo on this run is disciplined. Cross-check: the workloads of nine suites re-run under `go build -race`; a report whose racing access is in panrpc code is a violation.",
          TB + "completeness of the extractor's enumeration of shared variables; lexical lock sets = dynamic ones; one writer goroutine per close-ordered variable; reflect/runtime internals.",
          "DESIGN.md 7 C20"),
+ "C06": ("Lean 4 proof over a model of reflect-based lookup with panics as outcomes + regenerated skeleton + hostile raw peer against a child-process registry",
+         "Theorems (Props/C06.lean) for ALL type tables, object graphs (nil root, nil pointers, nil interfaces, nil embedded pointers, unexported and interface-typed fields), path strings and argument counts: resolution never yields `crash` (lookup panics are recovered, Call-time reflect panics are contained by utils.Call); on well-formed shapes the only crash classes of the pinned tree are the three proved witnesses. Tie 2: generated, near-miss, malformed and byte-mutated frames (requests and responses, bogus/duplicate ids) at a real registry in a child process, both APIs: child alive, every request answered or its link ended with a non-nil error, sibling link healthy after every frame; lookup model vs real reflect in C07.",
+         TB + "reflect as modelled (validated differentially on 6 roots x 85 paths); the decoder's own memory safety is the serializer's.",
+         "DESIGN.md 7 C06, 8 F2"),
+ "C07": ("Lean 4 proof relating the lookup model to an independent Go-spec definition of exposure (soundness + completeness) + regenerated skeleton + differential against real reflect and end-to-end name enumeration",
+         "Theorems (Props/C07.lean) for ALL shapes and names: `runs inst m` implies the path is a dot-join of exported field names selecting (Go selector rules: depth, uniqueness, promotion) a value whose method set has exported m, bound to that very object, with matching argument count; conversely every exposed path resolves; the only other callable is CallClosure with 2 args; everything else is rejected. Tie 2: real findMethodByFunctionCallPathRecursively (verif accessor) vs the model on 6 roots x 85 paths; every name of the zoo x 0/1/2 args sent end to end (child process, both APIs): application code may run only where the oracle and the model say so.",
+         TB + "reflect.FieldByName/MethodByName/Call flag semantics as modelled; method sets are taken from reflect.Type (promotion is the Go compiler's).",
+         "DESIGN.md 7 C07, 8 F9"),
+ "C13": ("Lean 4 proof over LTS model M4 (one registry, unboundedly many links) + regenerated skeleton + hub-and-spoke runs with life-cycle trace validation",
+         "Theorems (Props/C13.lean) for all reachable states with any number of interleaved links: the id in a handler's context = the link's id = the key it is enumerated under = the id of its connect events, ids distinct; calls through link l's remote are written to l's writer and answered to l's reader only; every action of link l (faults, cancellation, teardown) leaves every other link's component, its table entries and the enabledness/effect of its actions unchanged. Tie 2: one registry with k peers: identity/routing/isolation oracles with one random link failing under traffic; the hub's life-cycle events are replayed on M4 and the hook logs compared.",
+         TB + "per-call correlation inside one link is C01's model; fresh remote ids.",
+         "DESIGN.md 7 C13"),
+ "C14": ("Lean 4 proof over LTS model M4 (inductive invariants over the ghost hook log) + regenerated skeleton + teardown matrix with life-cycle trace validation",
+         "Theorems (Props/C14.lean) for all reachable states, any number of concurrent and repeated links and every termination cause: enumeration = connected minus disconnected AT EVERY INSTANT (registration+hooks and removal+hooks are single critical sections), exactly one connect of each kind with a fresh id before any request is read, at most one disconnect of each kind and only after both loops exited, per-link hook events mirror the registry's, and from every state with the context cancelled and reads failing an explicit run of <= 6 own steps reaches the disconnect. Tie 2: teardown matrix (2 APIs x 3 causes x in-flight counts x 3 peer behaviours): hook-count/enumeration oracles; each side's recorded life-cycle replayed on M4, hook logs must agree.",
+         TB + "the stream decoder's ability to finish is C08Live's theorem; scheduler fairness.",
+         "DESIGN.md 7 C14, 8 F4 F5b"),
 }
 PENDING = {
  "C01": "Lean model M3 (System) in progress",
@@ -45,11 +61,7 @@ PENDING = {
  "C03": "Lean model M2 (Endpoint) in progress",
  "C04": "Lean model M2 (Endpoint) in progress",
  "C05": "Lean model M2 (Endpoint) in progress",
- "C06": "Lean model P1 (Lookup) in progress",
- "C07": "Lean model P1 (Lookup) in progress",
  "C12": "Lean model M2 (Endpoint) in progress",
- "C13": "Lean model M4 (Registry) in progress",
- "C14": "Lean model M4 (Registry) in progress",
  "C15": "Lean model M2/M4 in progress",
  "C16": "Lean model M2 (Endpoint) in progress",
 }
